@@ -277,7 +277,7 @@ def main():
                     try:
                         rec["checks"] = []
                         rec["result"] = "survived"
-                        for cid in checks_for(m[0], m[1]):
+                        for cid in checks_for(m[0], m[1])[:int(os.environ.get("MUT_MAXCHECKS", "3"))]:
                             v, keys, wall = run_check(d, cid)
                             rec["checks"].append([cid, v, round(wall, 1), keys])
                             if v == "VIOLATION":
